@@ -7,10 +7,10 @@
 From Coq Require Import String.
 From TP Require Import Model.Prelude Extracted Model.Proxy Proofs.ProxyProofs Model.Json Model.Api.
 
-(** the three facts about proxy.go / link.go the theorem rests on, extracted from the source *)
+(** the facts about proxy.go / link.go the theorem rests on, extracted from the source *)
 Theorem C03_code_facts :
   free_blocker_waits_for_accept_loop = true /\ conn_key_is_dest = true /\
-  registers_before_links = true /\ stop_waits_then_closes = true.
+  registers_before_links = true /\ stop_waits_then_closes = true /\ writer_deregisters_its_name = true.
 Proof. repeat split; reflexivity. Qed.
 Print Assumptions C03_code_facts.
 
@@ -19,14 +19,14 @@ Print Assumptions C03_code_facts.
 Theorem C03_stop_is_down : forall l s,
   prun px_init l = Some s -> x_stop s = SReturned ->
   x_listening s = false /\ x_acc s = ADone /\ x_open s = [].
-Proof. exact (stop_is_down (proj1 C03_code_facts) (proj1 (proj2 C03_code_facts))). Qed.
+Proof. exact (stop_is_down (proj1 C03_code_facts) (proj2 (proj2 (proj2 (proj2 C03_code_facts))))). Qed.
 Print Assumptions C03_stop_is_down.
 
 (** and it stays that way whatever happens next: no registration, no new socket *)
 Theorem C03_nothing_after_stop : forall l s a s',
   prun px_init l = Some s -> x_stop s = SReturned -> pstep s a = Some s' ->
   x_open s' = [] /\ x_acc s' = ADone /\ x_listening s' = false.
-Proof. exact (nothing_after_stop (proj1 C03_code_facts) (proj1 (proj2 C03_code_facts))). Qed.
+Proof. exact (nothing_after_stop (proj1 C03_code_facts) (proj2 (proj2 (proj2 (proj2 C03_code_facts))))). Qed.
 Print Assumptions C03_nothing_after_stop.
 
 (** at the API level: disable, delete and a re-addressing update end with the old incarnation
